@@ -241,9 +241,10 @@ def check(run, prog, tier):
             run.saw(f)
             acq = []
             for b2, i2, n2 in f.nodes(skip_cf=False):
-                if n2.get("k") == "Un" and n2.get("op") == "++" and strip(n2["e"]).get("f") in ("ref",) and show(strip(strip(n2["e"])["b"])) == show(newv):
+                # the new value is named either directly or through the field it was just stored into
+                if n2.get("k") == "Un" and n2.get("op") == "++" and strip(n2["e"]).get("f") in ("ref",) and show(strip(strip(n2["e"])["b"])) in (show(newv), show(src)):
                     acq.append((b2.id, i2))
-                if n2.get("k") == "Call" and n2.get("fn") in ACQ[n["fn"]] and n2.get("args") and show(strip(n2["args"][0])) == show(newv):
+                if n2.get("k") == "Call" and n2.get("fn") in ACQ[n["fn"]] and n2.get("args") and show(strip(n2["args"][0])) in (show(newv), show(src)):
                     acq.append((b2.id, i2))
             if not acq:
                 continue  # ownership transferred some other way (not this pattern)
